@@ -175,6 +175,8 @@ type RouteSpec struct {
 	Conds    []string `json:"conds,omitempty"` // condition k is true iff request header Conds[k] == "1"
 	NoCT     []string `json:"noct,omitempty"`  // AllowedMethodsWithoutContentType
 	Marker   bool     `json:"marker,omitempty"`
+	// ViaSvc: Consumes/Produces are not set on the RouteBuilder but inherited from WebService.Consumes/Produces
+	ViaSvc bool `json:"via_service_defaults,omitempty"`
 }
 
 // Render returns the path string as given to the RouteBuilder.
